@@ -218,8 +218,21 @@ Definition rotated_field (nv : nat) (perm : list nat) (orig : fld) (R : mat3) (n
   Fld (new_pmin R orig) (new_pmax R orig) n' (rotated_val nv perm orig R n').
 
 (* ---------- state machine (rotate / clear_rotation) ---------- *)
-Inductive op := ORot (M : mat3) (n_explicit : option n3) | OClear.
+(* ORefused: a rotate() call whose arguments do not form a rotation request at all (unknown method,
+   malformed rotation arguments, n of the wrong length / negative / non-integral): it raises.  A request
+   with an explicit n containing a zero is refused as well (Mesh rejects it).  A refused call leaves the
+   rotator unchanged (field_rotator.py: the composed rotation is restored before re-raising). *)
+Inductive op := ORot (M : mat3) (n_explicit : option n3) | OClear | ORefused.
 Record state := St { st_rot : mat3; st_field : fld }.
+
+Definition n3_pos (n : n3) : bool := (1 <=? n0 n)%nat && (1 <=? n1 n)%nat && (1 <=? n2 n)%nat.
+Definition op_accepted (o : op) : bool :=
+  match o with
+  | ORot _ (Some n) => n3_pos n
+  | ORot _ None => true
+  | OClear => true
+  | ORefused => false
+  end.
 
 Section Machine.
   Variable nv : nat.
@@ -230,21 +243,26 @@ Section Machine.
 
   Definition init : state := St mid orig.
   Definition step (s : state) (o : op) : state :=
-    match o with
-    | ORot M nopt =>
-        let R := mmul M (st_rot s) in        (* multiplication from the left *)
-        St R (rotated_field nv perm orig R (match nopt with Some n => n | None => choose_n R end))
-    | OClear => init
-    end.
+    if op_accepted o then
+      match o with
+      | ORot M nopt =>
+          let R := mmul M (st_rot s) in        (* multiplication from the left *)
+          St R (rotated_field nv perm orig R (match nopt with Some n => n | None => choose_n R end))
+      | OClear => init
+      | ORefused => s
+      end
+    else s.
   Definition run (ops : list op) : state := fold_left step ops init.
 End Machine.
 
-(* accumulated rotation of an op list: product (later on the left) of the steps since the last clear *)
+(* accumulated rotation of an op list: product (later on the left) of the ACCEPTED steps since the last
+   clear *)
 Fixpoint acc_rot (acc : mat3) (ops : list op) : mat3 :=
   match ops with
   | [] => acc
-  | ORot M _ :: t => acc_rot (mmul M acc) t
+  | ORot M nopt :: t => acc_rot (if op_accepted (ORot M nopt) then mmul M acc else acc) t
   | OClear :: t => acc_rot mid t
+  | ORefused :: t => acc_rot acc t
   end.
 
 End Rnd.
